@@ -18,6 +18,12 @@ static const uint8_t SYM[3] = {'a', 'F', ' '};
 /* data pattern handed to multi-byte operations (prefixes of it) */
 static const uint8_t PAT[8] = {'a', 'F', ' ', 'F', 'a', ' ', 'a', 'F'};
 
+/* vacuity counters count new transitions only, not the engine's prefix replays */
+#define VC(name)                                                                                                 \
+    do {                                                                                                         \
+        if (!esx_in_replay) V_COUNT(name, 1);                                                                    \
+    } while (0)
+
 /* ---- transient operand blocks: exact-size galloc blocks, so that a 1-byte over-read is an ASan report ---- */
 #define MAXTMP 12
 static void *tmp_blk[MAXTMP];
